@@ -60,14 +60,16 @@ theorem live_is_latest {l : List (Event Nat Nat)} (hok : LogOK l) {x : It} (hx :
 /-- **debounce** (what a delivery means).  If subscriber `u` has been handed item `x` (key, value,
 scheduled time, identity of the `Batch` call) then
 * `x` was passed to `Batch` when the clock showed `x.time - interval`;
-* its fan-out happened exactly once, when the clock was at least `call time + interval - 0.5 ms`;
+* its fan-out happened exactly once, when the clock was at least `call time + interval - 0.5 ms`
+  (or — the saturation case C06 now models, `C06.not_early` — when the clock had run for 2^63 ns,
+  about 292 years, since the model's clock origin);
 * when the processor popped it, it was the LAST `Batch` for its key: every `Batch` of the same key
   made before the pop is `x` itself or an older call (earlier values inside the interval are
   suppressed — they were replaced and, by `C06.dequeued_or_replaced_never_runs`, never run). -/
 theorem debounce {cfg : Cfg} {s : State} (hr : Reach (Batcher.lts cfg) s) {u : Sub} (hu : u ∈ s.subs)
     {x : It} (hx : x ∈ u.delivered) :
     (x.id, x.time - cfg.interval) ∈ s.calls ∧
-    (∃ post pre n, s.p.log = post ++ Event.exec x n :: pre ∧ x.time - halfMs ≤ n ∧
+    (∃ post pre n, s.p.log = post ++ Event.exec x n :: pre ∧ (x.time - halfMs ≤ n ∨ maxDur ≤ n) ∧
         (∀ m, Event.exec x m ∉ pre) ∧ (∀ m, Event.exec x m ∉ post)) ∧
     (∃ post pre, s.p.log = post ++ Event.pop x :: pre ∧
         ∀ y, Event.enq y ∈ pre → y.key = x.key → y.id ≤ x.id) := by
@@ -300,6 +302,30 @@ theorem departure_never_wedges_close {cfg : Cfg} (hfix : cfg.fixed = true) (hcap
       s'.p.cpc = .returned ∧ 0 < s'.cr ∧ s.cr ≤ s'.cr :=
   close_completes hfix hcap hr hb hd
 
+/-- **A subscriber whose context has ended gets its channel closed** — also one whose context had
+ALREADY ended when `Subscribe` was called (`subCallDone`/`subAcquireDone`: the code registers it like
+any other subscriber; its forwarder's exit path is what closes the channel): from every reachable
+state there is a path of internal steps (and deliveries to readers that still read) after which its
+forwarder is `done`, i.e. has closed the channel and removed the subscriber.  Together with
+`close_closes_all` (which quantifies over every registered subscriber, pre-cancelled ones included):
+the channel handed to `Subscribe` is closed once its context has ended or `Close` returned.  The
+only exception is the documented one: a `Subscribe` that finds the batcher already closed is dropped
+silently, no subscriber exists and its channel is never touched. -/
+theorem departed_subscriber_channel_closes {cfg : Cfg} (hfix : cfg.fixed = true) (hcap : 0 < cfg.cap)
+    {stalled : Nat → Prop} {s : State} (hr : Reach (Batcher.lts cfg) s) (hd : Departed stalled s)
+    {i : Nat} {u : Sub} (hi : s.subs[i]? = some u) (hc : u.ctxDone = true ∨ s.closed = true) :
+    ∃ s' u', Steps (Batcher.lts cfg) (Allowed stalled) s s' ∧ s'.subs[i]? = some u' ∧ u'.pc = .done :=
+  departed_channel_closes hfix hcap hr hd hi hc
+
+/-- A `Subscribe` with an already-ended context on an open batcher does create a subscriber (with
+`ctxDone` set from the start), whenever the lock is free. -/
+theorem precancelled_subscribe_registers {cfg : Cfg} {s : State} (hw : 0 < s.waitSD) (hl : lockFree s = true)
+    (hc : s.closed = false) :
+    Batcher.step cfg s .subAcquireDone =
+      some { s with waitSD := s.waitSD - 1, retS := s.retS + 1,
+                    subs := s.subs ++ [{ Sub.new s.out.length with ctxDone := true }] } := by
+  simp [Batcher.step, subAcquireDone, hw, hl, hc]
+
 /-! ## the current source (regenerated facts, T1) -/
 
 /-- The shapes the model is written against, as `factgen_c10` finds them in the working tree: the
@@ -388,7 +414,7 @@ def demoLog : List (Event Nat Nat) :=
 def demo1 : State :=
   { p := { q := [demoItem], token := .loop, reset := true, stopped := false, stopClosed := false, pc := .top,
            cpc := .idle, now := 4, nextId := 2, log := [.enq demoItem, .enq ⟨7, 10, 100, 0⟩] },
-    subs := [Sub.new 0], epc := .idle, closed := false, cq := 0, cl := 0, cw := 0, cr := 0, waitS := 0, retS := 0,
+    subs := [Sub.new 0], epc := .idle, closed := false, cq := 0, cl := 0, cw := 0, cr := 0, waitS := 0, waitSD := 0, retS := 0,
     out := [], calls := [(1, 4), (0, 0)] }
 
 theorem demo_run1 : runFrom demoCfg Batcher.init [.subCall, .subAcquire, .subReturn,
@@ -405,7 +431,7 @@ theorem demo_run2 : runFrom demoCfg demo1 [.proc (.peek (some demoItem)), .proc 
     .proc (.peek (some demoItem)), .proc .pollNone, .proc .decide, .proc (.execCheck (some demoItem)),
     .proc .cbStart] = some demo2 := by
   simp [runFrom, demoCfg, demo1, demo2, demoItem, demoLog, Batcher.step, procStep, Processor.step, IsHead, IsMin, pop, halfMs,
-    Kit.Generated.C06.runNowMarginNs]
+    Kit.Generated.C06.runNowMarginNs, satDur, maxDur, minDur]
 
 /-- The fan-out; the forwarder takes the value and the reader receives it; the loop exits. -/
 def demo3 : State :=
